@@ -34,17 +34,37 @@ func c06(e *Env) {
 			v := g.Value(t)
 			fresh, ferr, fp := EncodeFresh(val.Clone(v))
 			if fp != nil || ferr != nil {
+				// an encode that fails may leave a partial frame behind, but it must not alter what was in the buffer
+				if fp == nil {
+					for h := 1; h < nHist; h++ {
+						buf, pre := mkHistory(h, g.R, nil, g.R.Intn(40))
+						if len(pre) == 0 {
+							continue
+						}
+						_, p := LibEncode(val.Clone(v), buf)
+						evals++
+						after := buf.Bytes()
+						if p == nil && (len(after) < len(pre) || !bytes.Equal(after[:len(pre)], pre)) {
+							r.Violate("C06/failed-encode-altered-earlier-bytes/"+t.QName+"/"+histNames[h], "C06/failed-encode-altered-earlier-bytes/"+t.QName, map[string]any{"type": t.QName, "case": ci, "history": histNames[h], "value": val.Summary(v, 300), "before": val.Hex(pre, 96), "after": val.Hex(after, 96)})
+							break
+						}
+						lf["failed-encodes-leaving-earlier-bytes-intact"]++
+					}
+				}
 				lf["skipped:value-does-not-encode"]++
 				continue
 			}
 			hv := val.Hash(v)
-			for h := 0; h < 7; h++ {
+			for h := 0; h < nHist; h++ {
 				m := val.Clone(v)
 				room := 0
 				if fi := frameOf(t); fi != nil {
 					room = fi.hdr
 				} else {
 					room = g.R.Intn(16)
+				}
+				if h == 8 {
+					room = len(fresh) - 1 - g.R.Intn(4)
 				}
 				buf, pre := mkHistory(h, g.R, fresh, room)
 				err, p := LibEncode(m, buf)
